@@ -347,3 +347,22 @@ def decision_table(g, refusal_kinds=("err",)):
             continue
         rows.append((rd, [e.cond for e in necessary_edges(g, rd.block)]))
     return rows
+
+
+def phi_defs(g, local):
+    """every whole definition of `local` as (expr, necessary-edge conditions, block)"""
+    out = []
+    b = g.body
+    for (bi, si, kind) in b.defs.get(local, []):
+        if kind != "whole":
+            continue
+        if si == "term":
+            e = g.eb.call_expr(b.blocks[bi].term)
+        else:
+            e = g.eb.rvalue(b.blocks[bi].stmts[si].rv)
+        out.append((e, [x.cond for x in necessary_edges(g, bi)], bi))
+    return out
+
+
+def block_conditions(g, block):
+    return [e.cond for e in necessary_edges(g, block)]
